@@ -22,6 +22,7 @@ import (
 	"verif/harness/memnet"
 	"verif/harness/refmodel"
 	"verif/harness/script"
+	"verif/harness/wire"
 )
 
 // norm turns a typed (possibly nil) response pointer into an interface that is nil when the pointer is.
@@ -125,15 +126,15 @@ func (s shape) String() string {
 }
 
 var statuses = []kmip.ResultStatus{kmip.ResultStatusSuccess, kmip.ResultStatusOperationFailed, kmip.ResultStatusOperationPending, kmip.ResultStatusOperationUndone, kmip.ResultStatus(7)}
-var reasons = []kmip.ResultReason{0, kmip.ResultReasonItemNotFound, kmip.ResultReason(0x55)}
+var reasons = []kmip.ResultReason{0, kmip.ResultReasonItemNotFound, kmip.ResultReason(0x55), kmip.ResultReasonOperationNotSupported}
 
 func shapeOf(i int) (shape, bool) {
-	// items=0: 3 header counts; items 1..2: 3 header counts x 4 ops x 5 statuses x 3 reasons x 4 payloads
+	// items=0: 3 header counts; items 1..2: 3 header counts x 4 ops x 5 statuses x 4 reasons x 4 payloads
 	if i < 3 {
 		return shape{headerCount: i, items: 0}, true
 	}
 	i -= 3
-	per := 3 * 4 * 5 * 3 * 4
+	per := 3 * 4 * 5 * 4 * 4
 	if i >= 2*per {
 		return shape{}, false
 	}
@@ -145,13 +146,13 @@ func shapeOf(i int) (shape, bool) {
 	i /= 4
 	s.status = statuses[i%5]
 	i /= 5
-	s.reason = reasons[i%3]
-	i /= 3
+	s.reason = reasons[i%4]
+	i /= 4
 	s.payload = i % 4
 	return s, true
 }
 
-const nShapes = 3 + 2*3*4*5*3*4
+const nShapes = 3 + 2*3*4*5*4*4
 
 func otherOp(op kmip.Operation) *gen.Op {
 	if op == kmip.OperationGet {
@@ -422,6 +423,62 @@ func batchCase(c *core.Ctx, r *core.Rand, i int) {
 	}
 }
 
+// statuslessCase: a response item WITHOUT the mandatory Result Status (everything else in place: operation echoed,
+// right payload or none, a reason and the server's message). It is not a success: every entry point must return an error.
+func statuslessCase(c *core.Ctx, r *core.Rand, i int) {
+	bs := builders()
+	b := bs[i%len(bs)]
+	variant := i / len(bs) // 0: right payload + reason + message, 1: right payload only, 2: no payload, reason + message
+	var sentRaw []byte
+	srv := script.NewServer(func(rx script.Received, conn *memnet.Conn) *kmip.ResponseMessage {
+		s := shape{headerCount: 1, items: 1, opKind: 0, status: kmip.ResultStatusSuccess, payload: 1}
+		if variant == 2 {
+			s.payload = 0
+		}
+		resp := respond(r, s, b.op, rx.Msg)
+		if variant != 1 {
+			resp.BatchItem[0].ResultReason = kmip.ResultReasonItemNotFound
+			resp.BatchItem[0].ResultMessage = serverMessage
+		}
+		tree, err := wire.Parse(ttlv.MarshalTTLV(resp))
+		if err != nil {
+			panic(err)
+		}
+		for k := range tree.Children {
+			if tree.Children[k].Tag == kmip.TagBatchItem {
+				var kept []wire.Node
+				for _, ch := range tree.Children[k].Children {
+					if ch.Tag != kmip.TagResultStatus {
+						kept = append(kept, ch)
+					}
+				}
+				tree.Children[k].Children = kept
+			}
+		}
+		sentRaw = wire.Gen(tree)
+		conn.Write(sentRaw)
+		return nil
+	})
+	defer srv.Close()
+	cl, err := newClient(srv)
+	if err != nil {
+		panic(err)
+	}
+	defer cl.Close()
+	var pl kmip.OperationPayload
+	var cerr error
+	c.Distinct(core.Hash64("statusless", b.name, fmt.Sprint(variant)))
+	if p, pv, st := core.Guard(func() { pl, cerr = b.call(cl) }); p {
+		c.Violation(core.PanicSig(pv, st), fmt.Sprintf("client call panicked on a response item without Result Status: %v (%s)", pv, b.name), map[string]any{"stack": st})
+		return
+	}
+	c.Count("statusless_exchanges", 1)
+	if cerr == nil {
+		c.Violation("C12:item-without-result-status-as-success:"+kindOf(b), fmt.Sprintf("%s returns success (%T) for a response item that carries no Result Status (variant %d)", b.name, pl, variant),
+			map[string]any{"response_bytes": fmt.Sprintf("%x", sentRaw)})
+	}
+}
+
 func negotiationCase(c *core.Ctx, r *core.Rand, i int) {
 	s, ok := shapeOf(i)
 	if !ok {
@@ -510,8 +567,8 @@ func Spec() *core.Spec {
 		Level: "exploration",
 		Rule: "for each of the 26 fluent request builders plus Client.Request, Client.Batch, the version-discovery exchange of Dial and Client.Signer: a scripted server answers from the complete product " +
 			"{header batch count 0,1,2} x {items 0,1,2} x {operation: requested, other registered, unknown, absent} x {status: Success, Failed, Pending, Undone, unknown} x {reason: none, registered, unknown} x {payload: absent, right, another operation's, opaque} (1443 shapes per entry point), " +
-			"plus seeded random well-formed responses with extensions and async values; plus every batch of 2, 3 and 4 requests answered item by item from {right, failed, pending, success with another operation's payload, success without payload, success answering another operation} (each item judged at its position); every (value, error) outcome is inspected under a panic monitor. Unwrap() must surface any failed item; the server's message contains percent signs; distinct = distinct (entry point, response shape)",
-		Required: []string{"exchanges", "calls_succeeded", "calls_failed", "failed_item_errors_inspected", "negotiations", "signer_calls", "batch_exchanges", "batch_items_inspected", "batch_unwraps_with_failed_item"},
+			"plus seeded random well-formed responses with extensions and async values; plus every batch of 2, 3 and 4 requests answered item by item from {right, failed, pending, success with another operation's payload, success without payload, success answering another operation} (each item judged at its position); every (value, error) outcome is inspected under a panic monitor. Unwrap() must surface any failed item; response items without Result Status; reason Operation Not Supported under every status (discovery fallback only for a FAILED item); the server's message contains percent signs; distinct = distinct (entry point, response shape)",
+		Required: []string{"exchanges", "calls_succeeded", "calls_failed", "failed_item_errors_inspected", "negotiations", "signer_calls", "batch_exchanges", "batch_items_inspected", "batch_unwraps_with_failed_item", "statusless_exchanges"},
 		Families: []core.Family{
 			{Name: "shapes", Exhaustive: true, N: func(string) int { return len(bs) * nShapes }, Run: func(c *core.Ctx, r *core.Rand, i int) {
 				b := bs[i%len(bs)]
@@ -546,6 +603,7 @@ func Spec() *core.Spec {
 				}
 				batchCase(c, r, i)
 			}},
+			{Name: "statusless", Exhaustive: true, N: func(string) int { return 3 * len(bs) }, Run: statuslessCase},
 			{Name: "negotiation", Exhaustive: true, N: func(string) int { return nShapes }, Run: negotiationCase},
 			{Name: "signer", N: func(string) int { return nShapes }, Run: signerCase},
 		},
